@@ -37,6 +37,9 @@ MUTANTS = [
  # C02/C03/C20 obligations of the same function become conditional (undecided), they must not be charged
  ("apply", PM, "HunkApplyReport::Applied { fuzz, .. } =>\n                        fuzz..=fuzz,", "HunkApplyReport::Applied { .. } =>\n                        fuzz..=fuzz,",
                ["C04.rollback_reports"], ["C02", "C03", "C20"]),
+ # the pre-fix call site of ModifiedFiles::rollback (defect repaired by /repo db44bfc): undo requested as Forward whatever the entry's -R
+ ("apply", "src/rapidquilt/apply/common.rs", "applied_patch.file_patch.rollback(&mut file, applied_patch.report.direction(), &applied_patch.report);",
+  "applied_patch.file_patch.rollback(&mut file, PatchDirection::Forward, &applied_patch.report);", ["undo_call_common.body", "C04.callsite"], ["C01", "C02", "C03", "C20"]),
  ("distributor", "src/rapidquilt/apply/parallel.rs",
   "            let filename_root = self.find_root(filename_index);\n            let new_filename_root = self.find_root(new_filename_index);\n            if filename_root < new_filename_root {\n                self.connected_components[new_filename_root] = filename_root;\n            } else {\n                self.connected_components[filename_root] = new_filename_root;\n            }\n",
   "            if filename_index < new_filename_index {\n                let i = self.connected_components[new_filename_index];\n                self.connected_components[i] = filename_index;\n            } else {\n                let i = self.connected_components[filename_index];\n                self.connected_components[i] = new_filename_index;\n            }\n",
